@@ -13,6 +13,8 @@ import (
 	"sync/atomic"
 	"time"
 
+	"github.com/plgd-dev/go-coap/v3/message"
+	"github.com/plgd-dev/go-coap/v3/message/codes"
 	"github.com/plgd-dev/go-coap/v3/message/pool"
 	coapNet "github.com/plgd-dev/go-coap/v3/net"
 	"github.com/plgd-dev/go-coap/v3/net/monitor/inactivity"
@@ -33,6 +35,14 @@ type c18TCPNetConn struct {
 	mu     sync.Mutex
 	frames [][]byte
 	pongs  chan struct{}
+	port   int // != 0: distinct remote address (several connections in one pkg/connections table)
+}
+
+func (c *c18TCPNetConn) RemoteAddr() net.Addr {
+	if c.port == 0 {
+		return c.Conn.RemoteAddr()
+	}
+	return &net.TCPAddr{IP: net.IPv4(127, 0, 0, 1), Port: c.port}
 }
 
 func (c *c18TCPNetConn) Write(b []byte) (int, error) {
@@ -64,9 +74,14 @@ type c18TCPDriver struct {
 	tokens   [][]byte // token of ping generation i+1
 	runDone  chan struct{}
 	peerTok  byte
+	sendTok  byte
+	before   int64
 }
 
-func c18NewTCPDriver(h c18Hist) (c18Driver, error) {
+func c18NewTCPDriver(h c18Hist) (c18Driver, error) { return c18NewTCPDriverSh(h, nil) }
+
+// sh != nil: monitor from a factory shared by several connections (c18_multi.go)
+func c18NewTCPDriverSh(h c18Hist, sh *c18Shared) (*c18TCPDriver, error) {
 	a, b := net.Pipe()
 	d := &c18TCPDriver{nc: &c18TCPNetConn{Conn: a, pongs: make(chan struct{}, 64)}, feed: b, runDone: make(chan struct{})}
 	cfg := tcpClient.DefaultConfig
@@ -78,18 +93,26 @@ func c18NewTCPDriver(h c18Hist) (c18Driver, error) {
 		d.closeLog.Add(1)
 		inactivity.CloseConn(cc)
 	}
-	if h.ka {
+	var inner tcpClient.InactivityMonitor
+	switch {
+	case sh != nil:
+		inner = sh.tcpFactory()
+	case h.ka:
 		options.WithKeepAlive(h.max, time.Duration(h.period*int64(h.max+1)+h.rem), onInactive).TCPClientApply(&cfg)
-	} else {
+		inner = cfg.CreateInactivityMonitor()
+	default:
 		options.WithInactivityMonitor(time.Duration(h.period), onInactive).TCPClientApply(&cfg)
+		inner = cfg.CreateInactivityMonitor()
 	}
-	inner := cfg.CreateInactivityMonitor()
 	real, ok := inner.(*inactivity.Monitor[*tcpClient.Conn])
 	if !ok {
 		return nil, fmt.Errorf("unexpected monitor type %T", inner)
 	}
 	d.real = real
 	d.cc = tcpClient.NewConnWithOpts(coapNet.NewConn(d.nc), &cfg, tcpClient.WithInactivityMonitor(inner))
+	if sh != nil {
+		sh.closes.Store(d.cc, &d.closeLog)
+	}
 	go func() { _ = d.cc.Run(); close(d.runDone) }()
 	d.clk = c18Clock{0, real.LastActivity()}
 	return d, nil
@@ -122,17 +145,56 @@ func (d *c18TCPDriver) peerPing() error {
 	}
 }
 
+func (d *c18TCPDriver) pre() {
+	d.before = d.closeLog.Load()
+	d.nc.mu.Lock()
+	d.nc.frames = nil
+	d.nc.mu.Unlock()
+}
+
+func (d *c18TCPDriver) post() []c18Obs {
+	var out []c18Obs
+	d.nc.mu.Lock()
+	for _, f := range d.nc.frames {
+		if c18TCPCode(f) == 0xE2 {
+			tkl := int(f[0] & 0x0f)
+			d.tokens = append(d.tokens, append([]byte(nil), f[2:2+tkl]...))
+			out = append(out, c18Obs{'P', len(d.tokens)})
+		}
+	}
+	d.nc.frames = nil
+	d.nc.mu.Unlock()
+	for i := d.before; i < d.closeLog.Load(); i++ {
+		out = append(out, c18Obs{kind: 'X'})
+	}
+	return out
+}
+
+// send: the local side writes a request (the socket write is synchronous); nobody answers
+func (d *c18TCPDriver) send() error {
+	d.sendTok++
+	m := d.cc.AcquireMessage(d.cc.Context())
+	defer d.cc.ReleaseMessage(m)
+	m.SetCode(codes.GET)
+	m.SetToken(message.Token{0x53, d.sendTok})
+	_ = m.SetPath("/s")
+	if err := d.cc.WriteMessage(m); err != nil {
+		return fmt.Errorf("send: %w", err)
+	}
+	return nil
+}
+
 func (d *c18TCPDriver) apply(e c18Ev) ([]c18Obs, error) {
 	closed := d.cc.Context().Err() != nil
 	if closed {
 		return nil, nil
 	}
-	var out []c18Obs
-	before := d.closeLog.Load()
-	d.nc.mu.Lock()
-	d.nc.frames = nil
-	d.nc.mu.Unlock()
+	d.pre()
 	switch e.kind {
+	case 'S':
+		if err := d.send(); err != nil {
+			return nil, err
+		}
 	case 'R', 'P':
 		t0 := time.Now()
 		if e.kind == 'P' && e.g >= 1 && e.g <= len(d.tokens) {
@@ -152,17 +214,5 @@ func (d *c18TCPDriver) apply(e c18Ev) ([]c18Obs, error) {
 	default:
 		return nil, fmt.Errorf("event %s not supported by driver tcp", e.desc())
 	}
-	d.nc.mu.Lock()
-	for _, f := range d.nc.frames {
-		if c18TCPCode(f) == 0xE2 {
-			tkl := int(f[0] & 0x0f)
-			d.tokens = append(d.tokens, append([]byte(nil), f[2:2+tkl]...))
-			out = append(out, c18Obs{'P', len(d.tokens)})
-		}
-	}
-	d.nc.mu.Unlock()
-	for i := before; i < d.closeLog.Load(); i++ {
-		out = append(out, c18Obs{kind: 'X'})
-	}
-	return out, nil
+	return d.post(), nil
 }
